@@ -100,6 +100,8 @@ def const_text(e):
 
 
 def describe(v):
+    if v["f"] == "asgv":
+        return "asgv %s: (%s d = (%s)%s)%s" % (v["op"], v["td"], v["ta"], v["xv"], "" if v["tc"] == "-" else " assigned to " + v["tc"])
     if v["f"] == "ptr":
         return "ptr %s elem=%d i=(%s)%s k=%s k2=%s" % (v["op"], v["es"], v["it"], v["iv"], v["k"], v["k2"])
     return "%s %s" % (v["f"], const_text(v["e"]))
